@@ -7,6 +7,7 @@ tokens are recorded under (<rule>, <n>).  erase() undoes (b) and (c) on the wove
 text independently of how it was produced, and the caller compares the result with
 the freshly lexed source item."""
 
+import re
 import rustlex
 from rustlex import match_close
 from extract import ExtractError, skip_angles
@@ -20,6 +21,28 @@ class Chunk:
 class Repl:
     def __init__(self, start, end, text, rule):
         self.start, self.end, self.text, self.rule = start, end, text, rule
+
+
+class HintLost(Exception):
+    """The anchor of a proof hint (ghost / proof-only text) is gone.  The unit is rebuilt with the proof hints of that
+    function switched off: if the function still verifies, nothing was lost; if it does not, the failure is not
+    attributable (reported as undecided, never as a violation)."""
+
+    def __init__(self, fn, msg):
+        Exception.__init__(self, msg)
+        self.fn, self.msg = fn, msg
+
+
+HINTS_OFF = {}     # function name -> message of the lost anchor (filled by dev.load_unit's retry loop)
+FORCE_HINTS_OFF = False   # tools/fragile.py: weave every function without its anchored proof hints
+FORCE_EXCEPT = set()      # ... except these (their contracts mention ghost bindings that the hints declare)
+HINTED = set()            # names of functions that have anchored proof hints (filled while weaving)
+_HINT_RE = re.compile(r'^\s*(proof\s*\{|let\s+ghost\b|assert\b|broadcast\s+use\b)')
+
+
+def is_hint(text):
+    """Proof-only text: ghost bindings, proof blocks, asserts, broadcast use.  Nothing executable."""
+    return bool(_HINT_RE.match(text)) and 'let mut ' not in text and 'Tracked(' not in text.split('proof')[0]
 
 
 class Woven:
@@ -171,6 +194,14 @@ class Woven:
         the hint is dropped (the obligations it helped with are gone too, or fail on their own)."""
         if optional and self._find(pattern, count=True) == 0:
             return False
+        if label is None and is_hint(text):
+            HINTED.add(self.name())
+            if (FORCE_HINTS_OFF and self.name() not in FORCE_EXCEPT) or self.name() in HINTS_OFF:
+                return False
+            try:
+                a, _ = self._find(pattern, nth)
+            except ExtractError as e:
+                raise HintLost(self.name(), str(e))
         a, _ = self._find(pattern, nth)
         self.insert_before_tok(a, text, label)
         return True
@@ -178,6 +209,14 @@ class Woven:
     def insert_after(self, pattern, text, nth='only', label=None, optional=False):
         if optional and self._find(pattern, count=True) == 0:
             return False
+        if label is None and is_hint(text):
+            HINTED.add(self.name())
+            if (FORCE_HINTS_OFF and self.name() not in FORCE_EXCEPT) or self.name() in HINTS_OFF:
+                return False
+            try:
+                self._find(pattern, nth)
+            except ExtractError as e:
+                raise HintLost(self.name(), str(e))
         _, b = self._find(pattern, nth)
         self.insert_after_tok(b, text, label)
         return True
@@ -185,17 +224,33 @@ class Woven:
     def insert_after_stmt(self, head, text, nth='only', label=None):
         """Insert after the `;` that ends the statement starting with the token pattern `head` (the rest of the
         statement may be spelled anyhow: hints anchored this way survive edits to the arguments)."""
-        a, b = self._find(head, nth)
-        i = b + 1
-        while True:
-            t = self.ct[i]
-            if t[0] == 'p' and t[1] in '([{':
-                i = match_close(self.ct, i)
-            elif t[0] == 'p' and t[1] == ';':
-                break
-            elif i >= self.hi:
-                raise ExtractError('%s: statement starting with %r has no end' % (self.name(), head))
-            i += 1
+        hint = label is None and is_hint(text)
+        if hint:
+            HINTED.add(self.name())
+        if hint and ((FORCE_HINTS_OFF and self.name() not in FORCE_EXCEPT) or self.name() in HINTS_OFF):
+            return
+        try:
+            a, b = self._find(head, nth)
+            i = b + 1
+            depth = sum(1 for k in range(a, b + 1) if self.ct[k][0] == 'p' and self.ct[k][1] in '([{') \
+                - sum(1 for k in range(a, b + 1) if self.ct[k][0] == 'p' and self.ct[k][1] in ')]}')
+            while True:
+                t = self.ct[i]
+                if t[0] == 'p' and t[1] in '([{':
+                    i = match_close(self.ct, i)
+                elif t[0] == 'p' and t[1] == ';':
+                    break
+                elif t[0] == 'p' and t[1] in ')]}':
+                    depth -= 1
+                    if depth < 0:   # the anchor is a tail expression, not a statement
+                        raise ExtractError('%s: statement starting with %r has no end' % (self.name(), head))
+                elif i >= self.hi:
+                    raise ExtractError('%s: statement starting with %r has no end' % (self.name(), head))
+                i += 1
+        except ExtractError as e:
+            if hint:
+                raise HintLost(self.name(), str(e))
+            raise
         self.insert_after_tok(i, text, label)
 
     def replace(self, pattern, text, rule, nth='all'):
@@ -206,6 +261,54 @@ class Woven:
         for k in which:
             a, b = self._find(pattern, k)
             self.repls.append(Repl(self.ct[a][2], self.ct[b][3], text, rule))
+
+    def name_closure_wildcards(self):
+        """T16: a closure whose only parameter is the wildcard, `|_| e`, is spelled `|kv_unused| e` (Verus rejects `_`
+        closure parameters).  `| _ |` cannot be anything but a closure head (`_` is not an expression)."""
+        n = self._find('| _ |', count=True)
+        done = 0
+        for k in range(n):
+            a, b = self._find('| _ |', k)
+            if any(r.start <= self.ct[a][2] < r.end for r in self.repls):
+                continue
+            self.repls.append(Repl(self.ct[a][2], self.ct[b][3], '|kv_unused|', 'T16-closure-wildcard'))
+            done += 1
+        return done
+
+    def spell_byte_strings(self):
+        """T17: a byte-string literal b"..." is spelled as the equal array reference &[0x..u8, ...] (same type
+        &'static [u8; N], same value): Verus knows nothing about the bytes of a string literal."""
+        done = 0
+        for i in range(self.item.lo, self.hi + 1):
+            t = self.ct[i]
+            if t[0] != 'str' or not t[1].startswith('b"'):
+                continue
+            if any(r.start <= t[2] < r.end for r in self.repls):
+                continue
+            body, out, k = t[1][2:-1], [], 0
+            ok = True
+            while k < len(body):
+                c = body[k]
+                if c != '\\':
+                    if ord(c) > 127:
+                        ok = False
+                        break
+                    out.append(ord(c)); k += 1
+                    continue
+                e = body[k + 1] if k + 1 < len(body) else ''
+                simple = {'n': 10, 'r': 13, 't': 9, '\\': 92, '0': 0, '"': 34, "'": 39}
+                if e in simple:
+                    out.append(simple[e]); k += 2
+                elif e == 'x' and k + 3 < len(body) + 0 and all(h in '0123456789abcdefABCDEF' for h in body[k + 2:k + 4]):
+                    out.append(int(body[k + 2:k + 4], 16)); k += 4
+                else:
+                    ok = False
+                    break
+            if not ok or not out:
+                continue
+            self.repls.append(Repl(t[2], t[3], '&[' + ', '.join('0x%02xu8' % b for b in out) + ']', 'T17-byte-string'))
+            done += 1
+        return done
 
     def replace_if_present(self, pattern, text, rule):
         if self._find(pattern, count=True):
@@ -305,6 +408,8 @@ class Woven:
         pat = callee_pattern + ' ('
         n = self._find(pat, count=True)
         if n == 0:
+            if text.strip() == 'Tracked(w)':
+                return   # T1: nothing to thread here any more; calls that exist are threaded from the fixed table (thread)
             raise ExtractError('%s: call anchor %r not found' % (self.name(), callee_pattern))
         which = range(n) if nth == 'all' else [nth]
         for k in which:
